@@ -186,6 +186,12 @@ func genVTTDoc(r *rng, maxCues int, tricky bool) vttDoc {
 				}
 				if r.chance(1, 6) {
 					run.ts = t + r.rangeI(1, 5000)
+					// neighbouring runs may carry the same instant (each one has its own timestamp in the document)
+					if n := len(line.runs); n > 0 && line.runs[n-1].ts != 0 && r.chance(1, 2) {
+						run.ts = line.runs[n-1].ts
+					}
+				} else if n := len(line.runs); n > 0 && line.runs[n-1].ts != 0 && r.chance(1, 3) {
+					run.ts = line.runs[n-1].ts
 				}
 				line.runs = append(line.runs, run)
 			}
